@@ -509,7 +509,45 @@ def fam_lend_then_split(tier):
     return out
 
 
+def staircase(n, lo, hi, value):
+    """a hold step at EVERY sample index lo <= k < hi (value(k) differs from value(k - 1)), constant outside"""
+    return [(0, value(0))] + [(k, value(k)) for k in range(max(lo, 1), min(hi, n))]
+
+
+def fam_step_on_sample(tier):
+    """class (seed C16-10, sample TIMES off the binary grid): a sample rate whose period den/num is not a binary fraction
+    (11/5, 7/4, 23/10, 3, 7/3: the double nearest to the period lies below it; 9/5, 6/5, 12/5, 7/5, 13/10: above it), so
+    that the time k/rate of almost every sample is a ROUNDED double, together with a discontinuity of the source exactly
+    on sample k — for EVERY k of the piece: the voltage is a staircase with a new level at each sample, the marker
+    toggles at each marker sample (every 2nd sample).  A sample time that is one ulp below (above) the double nearest to
+    k/rate plays the level from before (after) the step at that k.  Pieces of 192 / 208 / 240 samples, one piece longer
+    than the other (the time array is sized by the longest), staircase on the analog channel, on the marker, on both;
+    direct and template builds"""
+    out = []
+    down = ['11/5', '7/4', '23/10', '3', '7/3']
+    up = ['9/5', '6/5', '12/5', '7/5', '13/10']
+    rates = (down[:3] + up[:2]) if tier == 'quick' else (down + up + ['11/10', '5/3', '9/4', '1/3', '3/7'])
+    va = lambda k: F((k * 37) % 129 - 64, 128)                 # neighbours always differ, |v| <= 1/2
+    vb = lambda k: F((k * 29) % 65 - 32, 64)
+    vm = lambda k: F((k // 2) % 2)                             # toggles at every even sample
+    vn = lambda k: F(1 - (k // 2) % 2) * F(-1, 2)
+    for i, rate in enumerate(rates):
+        for n0, n1 in (((192, 208),) if tier == 'quick' else ((192, 208), (240, 192), (384, 192))):
+            ws = [wf(n0, A=staircase(n0, 0, n0, va), M=staircase(n0, 0, n0, vm)),
+                  wf(n1, A=staircase(n1, 0, n1, vb), M=staircase(n1, 0, n1, vn))]
+            build = 'template' if i % 2 else 'direct'
+            out.append(mk(T([L(0, 2), L(1), L(0)]), ws, rate=rate, build=build, channels=['A', None], markers=['M', None]))
+            if tier != 'quick':
+                out.append(mk(T([T([L(0), L(1)], r=2), T([L(1), L(1)], r=2)]), ws, rate=rate, min=2, max=4,
+                              channels=['A', 'A'], markers=['M', 'A'], amps=['1', '1/2'], offs=['0', '0']))
+        # a staircase on a window only (few table entries), the rest constant: the marker alone / the voltage alone
+        ws = [wf(192, A=staircase(192, 1, 64, va), M=F(1)), wf(192, A=F(1, 8), M=staircase(192, 2, 192, vm))]
+        out.append(mk(T([L(1), L(0)]), ws, rate=rate, channels=[None, 'A'], markers=[None, 'M']))
+    return out
+
+
 FAMILIES = [
+    ('step_on_sample', fam_step_on_sample),
     ('lend_then_split', fam_lend_then_split),
     ('measurements', fam_measurements),
     ('near_integer', fam_near_integer),
